@@ -190,3 +190,64 @@ def check_reflexive(prog, rep, rule):
                         'to the first entry and VisitKeys never terminates' % (bt, sorted(res), bt), func=f.id)
     if n == 0:
         raise AnalysisBroken('%s: no floating-point instantiation of CVariableKey::operator== in the analysed units' % rule)
+
+
+MEASURES = ('strlen', 'strnlen', 'length', 'wcslen', 'find', 'char_traits')
+
+
+def check_array_key(prog, rep, rule):
+    """A field key given as a character array (char key[16] filled at run time, or a literal) is compared as the text up to its terminator:
+    the extent the writer emits for it (the array decays to a pointer and WriteValue(const char*) measures it). Comparing the whole array
+    extent would make every key shorter than its buffer unfindable."""
+    rep.rule(rule, 'CVariableKey::operator== for a character-array key compares the null-terminated text (the extent the writer emitted), '
+                   'not the extent of the array', floor=1)
+    n_inst = 0
+    seen = set()
+    for f in sorted(prog.funcs.values(), key=lambda g: g.id):
+        if f.body is None or f.name != 'operator==' or 'CVariableKey' not in f.id or not f.params:
+            continue
+        pt = f.type(f.params[0])
+        if '[' not in pt or '&' not in pt:
+            continue
+        n_inst += 1
+        prm = f.params[0]['d']
+        verdicts = []
+        for n in f.walk():
+            if n['k'] not in ('CXXConstructExpr', 'CXXTemporaryObjectExpr') or 'basic_string_view' not in f.type(n):
+                continue
+            args = [a for a in n.get('c', []) if a and a['k'] != 'CXXDefaultArgExpr']
+            if not args:
+                continue
+            a0 = strip(args[0])
+            if a0 is None or a0['k'] != 'DeclRefExpr' or a0.get('d') != prm:
+                continue
+            if len(args) == 1:
+                verdicts.append(('ok', n, 'view measured from the pointer'))
+            else:
+                a1 = args[1]
+                calls = [(f.callee(x) or {}).get('q', '') or '' for x in f.walk(a1) if x['k'] in ('CallExpr', 'CXXMemberCallExpr')]
+                if any(any(m in q for m in MEASURES) for q in calls):
+                    verdicts.append(('ok', n, 'length measured by %s' % calls[0]))
+                elif 'cv' in a1 or ('cv' in (strip(a1) or {})):
+                    verdicts.append(('bad', n, 'the length is the constant %s taken from the array extent' % (a1.get('cv', (strip(a1) or {}).get('cv')))))
+                else:
+                    verdicts.append(('unknown', n, 'length expression not recognised'))
+        if not verdicts:
+            rep.defer_broken('%s: %s does not build a string_view from its array parameter - comparison form not modelled' % (rule, f.id[:120]))
+            continue
+        for v, n, why in verdicts:
+            key = (f.loc(n), v)
+            if key in seen:
+                continue
+            seen.add(key)
+            rep.touch(f)
+            if v == 'ok':
+                rep.ok(rule, 'operator==(T(&)[N])|%s' % why, sample={'site': f.loc(n), 'parameter': pt})
+            elif v == 'bad':
+                rep.finding(rule, 'operator==(T(&)[N])|whole array extent compared', f.loc(n),
+                            'CVariableKey::operator==(%s): %s; a key composed in a buffer longer than its text (char key[16]; snprintf(key, ...)) never '
+                            'matches the stored key, although the writer emitted exactly that text' % (pt, why), func=f.id)
+            else:
+                rep.defer_broken('%s: %s at %s' % (rule, why, f.loc(n)))
+    if not n_inst:
+        raise AnalysisBroken('%s: no instantiation of CVariableKey::operator== with a character-array parameter in the facts' % rule)
